@@ -74,6 +74,7 @@ func genPrefix(r *rng) string {
 func genRefsCase(r *rng) (cfg []cfgEntry, opts []string, hasRoots bool, refs []string) {
 	// five cases out of six avoid the error branches (invalid regexps, undefined groups, bad booleans)
 	valid := r.coin(5, 6)
+	commaFamily := false
 	rePool := rePool
 	symPool := symPool
 	if valid {
@@ -116,6 +117,18 @@ func genRefsCase(r *rng) (cfg []cfgEntry, opts []string, hasRoots bool, refs []s
 	}
 	if r.coin(1, 6) {
 		cfg = append(cfg, cfgEntry{key: "core.bare", value: "true", hasValue: true})
+	}
+	if valid && r.coin(1, 30) {
+		// a symbol that contains a comma next to the two symbols it seems to list: the reference in `ci` AND `bots`
+		// and the one in `ci,bots` have different symbol lists (seeded change C07m interned lists by their joined text)
+		cfg = append(cfg,
+			cfgEntry{key: "refgroup.ci.include", value: "refs/heads/foo", hasValue: true},
+			cfgEntry{key: "refgroup.ci.include", value: "refs/heads/abc", hasValue: true},
+			cfgEntry{key: "refgroup.bots.include", value: "refs/remotes", hasValue: true},
+			cfgEntry{key: "refgroup.bots.include", value: "refs/heads/abc", hasValue: true},
+			cfgEntry{key: "refgroup.ci,bots.include", value: "refs/heads/master", hasValue: true})
+		defined["ci"], defined["bots"], defined["ci,bots"] = true, true, true
+		commaFamily = true
 	}
 	// the same entry again later (git lists an entry once per scope and per occurrence), possibly with
 	// an entry of the opposite polarity or another name in between: order and repetition matter
@@ -195,6 +208,10 @@ func genRefsCase(r *rng) (cfg []cfgEntry, opts []string, hasRoots bool, refs []s
 	hasRoots = r.coin(1, 3)
 	nr := 3 + r.n(8)
 	seen := map[string]bool{}
+	if commaFamily {
+		seen["refs/heads/abc"], seen["refs/heads/master"] = true, true
+		refs = append(refs, "refs/heads/abc", "refs/heads/master")
+	}
 	for j := 0; j < nr; j++ {
 		s := refPool[r.n(len(refPool))]
 		if r.coin(1, 10) {
